@@ -5,10 +5,12 @@ import (
 	"fmt"
 	"strings"
 	"testing"
+	"time"
 
 	"pgregory.net/rapid"
 
 	"github.com/pokt-network/pocket-core/crypto"
+	sdk "github.com/pokt-network/pocket-core/types"
 	pocketTypes "github.com/pokt-network/pocket-core/x/pocketcore/types"
 
 	"verif/harness"
@@ -46,10 +48,44 @@ type c35Env struct {
 	// (self joined at or before the session start, other stayed: SessionNodeCount+1 stakers, selection decides).
 	selfOn21 string
 	join21At int64 // block of self's edit-stake (0 = none)
+	// prev0001Out: self is jailed in the state of the previous session's last block: it is not a node of that session on
+	// any chain, chain 0001 included
+	prev0001Out bool
+}
+
+// chainSched is self's planned presence on chain 0021 in the "previous-session-boundary" worlds: it edit-stakes onto the
+// chain in block joinAt (the "other" node leaves 0021 in the same block, so that the 0021 stakers are exactly
+// SessionNodeCount nodes whenever self is one of them), away from it in block leaveAt and back onto it in block rejoinAt
+// (0 = never). An edit-stake takes effect in the state of the block it is delivered in.
+type chainSched struct{ joinAt, leaveAt, rejoinAt int64 }
+
+// on reports whether self is staked for 0021 in the state of block h.
+func (s chainSched) on(h int64) bool {
+	if s.joinAt == 0 || h < s.joinAt {
+		return false
+	}
+	if s.leaveAt != 0 && h >= s.leaveAt {
+		return s.rejoinAt != 0 && h >= s.rejoinAt
+	}
+	return true
+}
+
+// inSession: a session that starts at block start is formed from the nodes staked for the chain in the state of its first
+// block, minus those that are no longer eligible in the state of its last block (or of the node's latest block `now` while the
+// session is still running). With exactly SessionNodeCount stakers every staker is selected, so self is a session node iff it
+// is staked for the chain in both states; if it is not, no full session exists and the relay cannot be served either way.
+func (s chainSched) inSession(start, bps, now int64) bool {
+	end := start + bps - 1
+	if end > now {
+		end = now
+	}
+	return s.on(start) && s.on(end)
 }
 
 // selfOn21 == "left-mid-session": self was on 0021 at the session's first block and edit-staked away from it in a
 // later block of the session: session nodes that no longer serve the chain are dropped from the session.
+
+func chainAddr(k crypto.PrivateKey) sdk.Address { return sdk.Address(k.PublicKey().Address()) }
 
 func flipHexByte(s string) string {
 	b, err := hex.DecodeString(s)
@@ -73,7 +109,7 @@ var c35Alterations = []c35Alteration{
 		p.Payload.Headers = map[string]string{"X-Verif": "1"}
 	}},
 	{name: "none-previous-session-within-session-allowance", valid: true,
-		enabled: func(w *relayWorld, e *c35Env) bool { return e.allowance >= 1 && e.sbh-w.bps >= 3 },
+		enabled: func(w *relayWorld, e *c35Env) bool { return e.allowance >= 1 && e.sbh-w.bps >= 3 && !e.prev0001Out },
 		pre:     func(w *relayWorld, e *c35Env, p *rf.RelayParams) { p.SessionHeight = e.sbh - w.bps }},
 
 	// ---- application token
@@ -166,6 +202,7 @@ var c35Alterations = []c35Alteration{
 
 func TestC35(t *testing.T) {
 	floors := map[string]float64{"served": 0.9, "lean": 0.25, "non-lean": 0.25, "validator-set-changed-mid-session": 0.3, "joiner-on-0001-mid-session": 0.2,
+		"eligibility-differs-between-session-last-block-and-next-block": 0.08, "previous-session-boundary": 0.08, "previous-session-jail": 0.04,
 		"alt:servicer-joined-chain-mid-session": 0.2, "alt:servicer-left-chain-mid-session": 0.08, "alt:none-servicer-joined-chain-before-session-start": 0.05}
 	for _, a := range []string{"aat-signature-corrupted", "aat-unstaked-application", "aat-client-key-replaced", "client-signature-by-unnamed-key",
 		"request-hash-of-other-payload", "payload-data-changed-after-hashing", "servicer-key-of-in-session-peer", "chain-not-hosted-by-node",
@@ -175,7 +212,10 @@ func TestC35(t *testing.T) {
 	harness.Check(t, "C35",
 		"per case: a chain-simulator world (self + 1-3 in-session peers, SessionNodeCount = all 0001 stakers, blocks/session 2-4, ctx anywhere in the 2nd-4th session, "+
 			"lean / non-lean node mode, session sync allowance 0-1) whose validator set for a chain may change by real transactions while the chain runs (self edit-stakes onto chain 0021 "+
-			"before or after the latest session's first block, with or without the other 0021 node edit-staking away in the same block, and possibly edit-stakes away again mid-session; a further node stakes / edit-stakes onto 0001 mid-session), "+
+			"before or after the latest session's first block, with or without the other 0021 node edit-staking away in the same block, and possibly edit-stakes away again mid-session; a further node stakes / edit-stakes onto 0001 mid-session; "+
+			"session rollover worlds (allowance 1): self is on 0021 since the PREVIOUS session's first block and edit-stakes away from / back onto the chain in that session's last block, the next session's first block or a neighbour, "+
+			"or self is jailed for downtime (missed vote, real BeginBlocker) and unjailed by its own MsgUnjail around the same boundary; the first relays are then for the previous and the current session of that chain, "+
+			"valid or not as the servicer is eligible in the state of the session's first block and of its last block (model: presence schedule evaluated at those two heights)), "+
 			"node session cache empty; the real keeper's HandleRelay with 24 relays from the relay factory, each valid or with exactly one alteration "+
 			"(application token signature / signer / application key / client key / version, client signature, request hash vs payload/meta, servicer key, chain not hosted / "+
 			"not staked by app / session without this node / servicer joined the chain after the session's first block / servicer left the chain after it, session height, meta height, entropy); oracle: altered => error, no backend call, "+
@@ -197,7 +237,8 @@ func TestC35(t *testing.T) {
 			// staked for the chain in the state of the session's first block (sbh): a change in a block <= sbh is part
 			// of the session, a change in a later block is not.
 			sbh := ((stop-1)/bps)*bps + 1
-			join21 := rapid.SampledFrom([]string{"none", "none", "before-session-start", "before-session-start-and-leaves-mid-session", "mid-session", "mid-session"}).Draw(rt, "selfJoins0021")
+			join21 := rapid.SampledFrom([]string{"none", "none", "before-session-start", "before-session-start", "before-session-start-and-leaves-mid-session", "before-session-start-and-leaves-mid-session",
+				"mid-session", "mid-session", "mid-session", "mid-session", "previous-session-boundary", "previous-session-boundary", "previous-session-jail"}).Draw(rt, "selfJoins0021")
 			join01 := rapid.SampledFrom([]string{"none", "none", "new-stake", "edit-stake"}).Draw(rt, "joinerJoins0001")
 			leaves21 := join21 == "before-session-start-and-leaves-mid-session"
 			if (join21 == "mid-session" || leaves21 || join01 != "none") && stop == sbh {
@@ -205,6 +246,59 @@ func TestC35(t *testing.T) {
 			}
 			var join21At, leave21At, join01At int64
 			otherLeaves := false
+			var sched *chainSched
+			if join21 == "previous-session-boundary" {
+				// Session rollover: relays for the PREVIOUS session (session sync allowance 1) while self's eligibility for
+				// the chain changes by edit-stakes around that session's last block E = sbh-1 and the next block sbh.
+				allowance = 1
+				if sbh-bps < 4 { // self's join is a transaction at or before the previous session's first block; generated blocks start at 4
+					stop, sbh = stop+bps, sbh+bps
+				}
+				psbh, E := sbh-bps, sbh-1
+				lo := psbh - bps + 1
+				if lo < 4 {
+					lo = 4
+				}
+				sched = &chainSched{joinAt: int64(rapid.IntRange(int(lo), int(psbh)).Draw(rt, "boundaryJoinAt"))}
+				cands := []int64{0}
+				for _, h := range []int64{E - 1, E, E, E, sbh, sbh, sbh, sbh + 1, psbh + 1 + int64(rapid.IntRange(0, int(stop-psbh-1)).Draw(rt, "leaveAnywhere"))} {
+					if h > psbh && h <= stop {
+						cands = append(cands, h)
+					}
+				}
+				sched.leaveAt = rapid.SampledFrom(cands).Draw(rt, "boundaryLeaveAt")
+				if sched.leaveAt != 0 && sched.leaveAt < stop {
+					switch rapid.IntRange(0, 3).Draw(rt, "boundaryRejoin") {
+					case 0:
+					case 1:
+						sched.rejoinAt = int64(rapid.IntRange(int(sched.leaveAt+1), int(stop)).Draw(rt, "boundaryRejoinAt"))
+					default:
+						sched.rejoinAt = sched.leaveAt + 1
+					}
+				}
+				join21At, leave21At, otherLeaves = sched.joinAt, sched.leaveAt, true
+			}
+			// ... or self is jailed for downtime (a single missed vote jails in these worlds) and unjailed again by its own
+			// MsgUnjail 61 s of block time later, around the same boundary. jailed(h) = jailAt <= h < unjailAt; self is
+			// always unjailed again in the node's latest state, so only the previous session's membership is affected.
+			var jailAt, unjailAt int64
+			if join21 == "previous-session-jail" {
+				allowance = 1
+				psbh, E := sbh-bps, sbh-1
+				var cands []int64
+				for _, h := range []int64{E - 1, E, E, E, sbh, sbh, psbh + int64(rapid.IntRange(0, int(stop-psbh-1)).Draw(rt, "jailAnywhere"))} {
+					if h >= 4 && h < stop {
+						cands = append(cands, h)
+					}
+				}
+				jailAt = rapid.SampledFrom(cands).Draw(rt, "jailAt")
+				unjailAt = jailAt + 1
+				if rapid.IntRange(0, 3).Draw(rt, "unjailLater") == 0 {
+					unjailAt = int64(rapid.IntRange(int(jailAt+1), int(stop)).Draw(rt, "unjailAt"))
+				}
+				join21 = "none"
+			}
+			jailed := func(h int64) bool { return jailAt != 0 && jailAt <= h && h < unjailAt }
 			switch join21 {
 			case "before-session-start", "before-session-start-and-leaves-mid-session":
 				join21At = int64(rapid.IntRange(int(sbh-bps+1), int(sbh)).Draw(rt, "join21At"))
@@ -214,7 +308,7 @@ func TestC35(t *testing.T) {
 			case "mid-session":
 				join21At = int64(rapid.IntRange(int(sbh+1), int(stop)).Draw(rt, "join21At"))
 			}
-			if join21 != "none" {
+			if join21 != "none" && sched == nil {
 				otherLeaves = rapid.IntRange(0, 2).Draw(rt, "otherLeaves0021") > 0
 			}
 			if join01 != "none" {
@@ -225,8 +319,26 @@ func TestC35(t *testing.T) {
 			if join01 == "edit-stake" {
 				opts.JoinerGenesisChains = []string{"0050"}
 			}
+			if jailAt != 0 {
+				opts.MinSignedPct = 100
+				opts.AbsentAt = func(w *relayWorld, h int64) []crypto.PrivateKey {
+					if h == jailAt {
+						return []crypto.PrivateKey{w.self}
+					}
+					return nil
+				}
+				opts.DTAt = func(h int64) time.Duration {
+					if h == unjailAt {
+						return 61 * time.Second // DowntimeJailDuration is 60 s
+					}
+					return 0
+				}
+			}
 			opts.TxsAt = func(w *relayWorld, h int64) []worldTx {
 				var txs []worldTx
+				if jailAt != 0 && h == unjailAt {
+					txs = append(txs, w.unjailTx("self", w.self))
+				}
 				if h == join21At {
 					txs = append(txs, w.stakeTx("self", w.self, []string{"0001", "0003", "0040", "0021"}))
 					if otherLeaves {
@@ -235,6 +347,9 @@ func TestC35(t *testing.T) {
 				}
 				if h == leave21At {
 					txs = append(txs, w.stakeTx("self", w.self, []string{"0001", "0003", "0040"}))
+				}
+				if sched != nil && h == sched.rejoinAt {
+					txs = append(txs, w.stakeTx("self", w.self, []string{"0001", "0003", "0040", "0021"}))
 				}
 				if h == join01At {
 					chains := []string{"0001"}
@@ -258,6 +373,8 @@ func TestC35(t *testing.T) {
 				rt.Fatalf("world ended at height %d session %d, planned %d / %d", env.height, env.sbh, stop, sbh)
 			}
 			switch {
+			case sched != nil:
+				env.selfOn21 = "previous-session-boundary"
 			case leaves21:
 				env.selfOn21 = "left-mid-session"
 			case join21 == "mid-session":
@@ -286,6 +403,69 @@ func TestC35(t *testing.T) {
 			}
 			if join01 != "none" {
 				first = append(first, c35Alterations[0])
+			}
+			if jailAt != 0 {
+				psbh, E := sbh-bps, sbh-1
+				c.Opf("self jailed for downtime in h%d, unjailed by its MsgUnjail in h%d; previous session %d..%d, current %d.., node at %d; jailed(E)=%v jailed(E+1)=%v",
+					jailAt, unjailAt, psbh, E, sbh, stop, jailed(E), jailed(sbh))
+				if v, ok := w.n.App.VerifNodesKeeper().GetValidator(w.n.Ctx(), chainAddr(w.self)); !ok || v.Jailed {
+					rt.Fatalf("world: self should be unjailed at the end (found=%v jailed=%v)", ok, v.Jailed)
+				}
+				prev := c35Alteration{name: "previous-session-servicer-jailed-in-session-last-block",
+					pre: func(w *relayWorld, e *c35Env, p *rf.RelayParams) { p.SessionHeight = psbh }}
+				if !jailed(E) {
+					prev.name, prev.valid = "none-previous-session-servicer-not-jailed-in-session-last-block", true
+				}
+				env.prev0001Out = jailed(E)
+				first = append(first, prev, c35Alterations[0])
+				c.Label("previous-session-jail")
+				if jailed(E) != jailed(sbh) {
+					c.Label("eligibility-differs-between-session-last-block-and-next-block")
+					if jailed(E) {
+						c.Label("boundary:jailed-in-last-block-unjailed-in-next")
+					} else {
+						c.Label("boundary:unjailed-in-last-block-jailed-in-next")
+					}
+				}
+				if stop == sbh {
+					c.Label("boundary:node-at-next-session-first-block")
+				}
+			}
+			if sched != nil {
+				// the relays the schedule decides, each the first one for its session header on this node (session cache
+				// miss: the node forms the session now): previous session and current session on chain 0021
+				psbh, E := sbh-bps, sbh-1
+				c.Opf("self on 0021: join h%d (other leaves), leave h%d, rejoin h%d; previous session %d..%d, current %d.., node at %d; on(E)=%v on(E+1)=%v",
+					sched.joinAt, sched.leaveAt, sched.rejoinAt, psbh, E, sbh, stop, sched.on(E), sched.on(sbh))
+				prev := c35Alteration{name: "previous-session-servicer-off-chain-in-session-last-block",
+					pre: func(w *relayWorld, e *c35Env, p *rf.RelayParams) { p.Chain, p.SessionHeight = "0021", psbh }}
+				if sched.inSession(psbh, bps, stop) {
+					prev.name, prev.valid = "none-previous-session-servicer-on-chain-in-session-first-and-last-block", true
+				}
+				cur := c35Alteration{name: "servicer-off-chain-at-session-start-or-now", pre: func(w *relayWorld, e *c35Env, p *rf.RelayParams) { p.Chain = "0021" }}
+				if sched.inSession(sbh, bps, stop) {
+					cur.name, cur.valid = "none-servicer-on-chain-at-session-start-and-now", true
+				}
+				first = append(first, prev, cur)
+				c.Label("previous-session-boundary")
+				if sched.on(E) != sched.on(sbh) {
+					// the class the rollover rule is about: deciding by the next session's first block gives the other answer
+					c.Label("eligibility-differs-between-session-last-block-and-next-block")
+					if sched.on(E) {
+						c.Label("boundary:on-chain-in-last-block-off-in-next")
+					} else {
+						c.Label("boundary:off-chain-in-last-block-on-in-next")
+					}
+				}
+				if sched.leaveAt == E {
+					c.Label("boundary:left-chain-in-session-last-block")
+				}
+				if sched.leaveAt == sbh {
+					c.Label("boundary:left-chain-in-next-session-first-block")
+				}
+				if stop == sbh {
+					c.Label("boundary:node-at-next-session-first-block")
+				}
 			}
 			ctx := w.ctx(rt)
 			served, rejected := 0, map[string]bool{}
